@@ -114,7 +114,11 @@ reg("C04", "proof",
         "assumed: xr.align of the validity mask and an image mask of the same shape is the identity (same coordinate labels)"],
     assumptions=["the disparity axis of the cost volume starts and ends on integers (grid_estimation; sub-pixel samples lie between them)"])
 other("C05", "glue contracts on the nine <step>_check_conf callbacks (the step's completed configuration is stored under the user's "
-      "key, margins recorded once, no other field written); defaults, domains, idempotence, user dictionary untouched:")
+      "key, margins recorded once, no other field written); documented defaults decided as finite data obligations over the class "
+      "bodies (@tables, 21 clauses: the class constant has the documented value -- window_size 5, subpix 1, cbca 30.0/5, "
+      "invalid_disparity -9999, filter_size 3, sigma 2.0/6.0, eta 0.7/0.01, cross_checking_threshold 1.0, num_scales 2, "
+      "scale_factor 2, marge 1 -- and check_conf stores exactly that constant when the key is absent); parameter domains "
+      "(json_checker schemas), idempotence, key order, user dictionary untouched:")
 reg("C07", "proof",
     "CrossCheckingAccurate.disparity_checking proved for every image size, interval and threshold over symbolic datasets (row loop "
     "invariant; the row-wise numpy code -- np.where selections, gathers through index vectors, np.tile families, masked updates "
